@@ -39,6 +39,26 @@ Theorem C14_distinct_clocked : forall c0 h1 i src t h2 j h3 s outs a b,
 Proof. exact ik_distinct_clocked. Qed.
 Print Assumptions C14_distinct_clocked.
 
+(* Creation times chosen by the submitter - a client whose clock is ahead of the node's by a
+   millisecond or a year, a bundle built for a later time: the entry survives every cleaning whose
+   clock has not passed t + 86400 ms, so two such bundles get different numbers whatever else
+   (report-to, destination, lifetime, flags, blocks, payload) they differ in: the counter is keyed
+   by (source, time) only. *)
+Theorem C14_distinct_ahead : forall h1 i src t h2 j h3 s outs a b,
+  ik_run ik_init (h1 ++ IkAssign i src t :: h2 ++ IkAssign j src t :: h3) = Some (s, outs) ->
+  ~ In IkRestart h2 ->
+  (forall now, In (IkClean now) h2 -> ik_window <= now /\ now < ik_two64 /\ now <= t + ik_window) ->
+  ik_seq_of s i = Some a -> ik_seq_of s j = Some b ->
+  a < b /\ (src, t, a) <> (src, t, b).
+Proof. exact ik_distinct_ahead. Qed.
+Print Assumptions C14_distinct_ahead.
+
+(* The cleaning threshold is exact at the millisecond (what the boundary probe observes). *)
+Theorem C14_clean_threshold : forall now e, ik_window <= now -> now < ik_two64 -> ike_time e <> 0 ->
+  ik_keep now e = true <-> now <= ike_time e + ik_window.
+Proof. exact ik_keep_exact. Qed.
+Print Assumptions C14_clean_threshold.
+
 (* Without the hypothesis the statement is false: the IdKeeper is volatile.  After an orderly
    restart a clock-less source (zero creation time) starts again at number 0 although its earlier
    bundle is still stored under that ID: the two bundles share the ID, the second one is not filed
@@ -104,6 +124,17 @@ Proof. vm_compute. repeat split; reflexivity. Qed.
 Example C14_example_clean :
   match ik_run ik_init [IkAssign 1 5 940000; IkAssign 2 5 880000; IkClean 1000000; IkAssign 3 5 940000; IkAssign 4 5 880000] with
   | Some (s, _) => (ik_seq_of s 1, ik_seq_of s 3, ik_seq_of s 2, ik_seq_of s 4) = (Some 0, Some 1, Some 0, Some 0)
+  | None => False
+  end.
+Proof. vm_compute. reflexivity. Qed.
+
+(* creation times ahead of the clock are kept (no wrap-around of now - t), the threshold is exact:
+   at clock 1000000 an entry of time 913600 = now - 86400 survives, one of 913599 is dropped *)
+Example C14_example_ahead :
+  match ik_run ik_init [IkAssign 1 5 1000001; IkClean 1000000; IkAssign 2 5 1000001;
+                        IkAssign 3 5 32536000000; IkClean 1000000; IkAssign 4 5 32536000000;
+                        IkAssign 5 5 913600; IkAssign 6 5 913599; IkClean 1000000; IkAssign 7 5 913600; IkAssign 8 5 913599] with
+  | Some (s, _) => (ik_seq_of s 2, ik_seq_of s 4, ik_seq_of s 7, ik_seq_of s 8) = (Some 1, Some 1, Some 1, Some 0)
   | None => False
   end.
 Proof. vm_compute. reflexivity. Qed.
